@@ -17,6 +17,7 @@ func init() {
 		Explanation: "(1) close-order: in Client.close the events kill.Store(true) -> group/share leave (LeaveGroupContext and <-left) or direct assignPartitions(nil, assignInvalidateAll) -> metrics.quit -> cl.ctxCancel() -> stopBrokers=true under brokersMu -> stopForever on every broker and on every seed -> <-cl.metadone -> maybeDrain/maybeConsume on every sink/source -> failBufferedRecords(ErrClientClosed) -> PollFetches(nil) form a dominance chain that dominates every return; OnClientClosed is deferred; startNewSession drops the assignment when kill is set; every newBroker outside seed construction is under `!cl.stopBrokers`; " +
 			"(2) teardown: brokerCxn.die is idempotent through dead.Swap(true) (the only writer of dead) and every non-early exit has passed conn.Close, close(deadCh), resps.die() and failParked(); failParked sets parkFailed under parkMu and fails every parked request, park refuses when parkFailed; broker.stopForever swaps dead before reqs.die() and dies every *brokerCxn field of broker; loadConnection stores a new connection only under `!b.dead.Load()`; " +
 			"(3) loop-exit: every in-scope loop (see technique) of kgo is in the confirmed table and still has the recorded shutdown exit: a return/break guarded by a receive from ctx.Done() or a ctx.Err() test (type-resolved), or the recorded witness guards (dead/quit/more flags, bounded retry counters, CAS success); loops whose every exit must carry a guard (manageFetchConcurrency: wantQuit && activeFetches == 0 && len(wantFetch) == 0, because blocked senders on cancelFetchCh depend on it) are checked on all exits; parking operations inside such loops without a ctx arm or default must be in the loop's allow-list; loops not in the table must have a context exit, else they are reported; counter-wait loops (session.workers, shareConsumer.workers) need the cancel before the wait and a Broadcast at every decrement; " +
+			"(3b) loop-lock-balance: every Lock()/RLock() taken inside the body of such a loop (or inside a backward-goto region) is released on every path to the loop's back edge and to every exit of the function, either directly (Unlock/RUnlock of the same lock path, found with a must-pass path search on the CFG) or by handing the release to a callback literal that releases on all of its paths and is passed to a callee known to run it exactly once (groupConsumer.commit, C09); " +
 			"(4) go-table: every `go` statement of kgo is in the confirmed table with its class (long-lived loop, latch/ring worker, waiter, bounded, request, user callback); the body's parking operations without a ctx arm must be in the entry's allow-list; new `go` statements are undecided; " +
 			"(5) waiter-release: every goroutine that waits on a sync.Cond in `for !quit && ... { Wait() }` is released on every arm of the spawner's select: the arm either receives the goroutine's done channel or sets quit under the lock and Broadcasts; " +
 			"(6) polls-closed: PollRecords and shareConsumer.poll select on the client-lifetime context and return NewErrFetch(ErrClientClosed) there; PollFetches delegates to PollRecords; " +
@@ -39,6 +40,14 @@ func runC13(c *Ctx) {
 	c13closeFlags(c, m)
 	c13die(c, m)
 	c13loops(c, m)
+	c13loopLocks(c, m)
+	if os.Getenv("FGCHECK_C13_DUMP") != "" {
+		for _, o := range c.Obs {
+			if o.Rule == "loop-lock-balance" {
+				fmt.Println("LOCK", o.Construct, o.Pos, o.Verdict)
+			}
+		}
+	}
 	c13waiters(c, m)
 	c13gos(c, m)
 	c13polls(c, m)
